@@ -712,7 +712,11 @@ TOP:
 				}
 			}
 		case method != nil:
-			args := root.formReflectArgs(ov, vars, field)
+			args, ea2 := root.formReflectArgs(ov, vars, field, fd, method)
+			if 0 < len(ea2) {
+				ea = append(ea, ea2...)
+				return
+			}
 			mva := fd.method.Call(args)
 			switch len(mva) {
 			case 1:
@@ -731,19 +735,60 @@ TOP:
 	return
 }
 
-func (root *Root) formReflectArgs(ov reflect.Value, vars map[string]interface{}, field *Field) (args []reflect.Value) {
-	args = make([]reflect.Value, 0, len(field.Args)+1)
+func (root *Root) formReflectArgs(
+	ov reflect.Value,
+	vars map[string]interface{},
+	field *Field,
+	fd *FieldDef,
+	method *reflect.Value) (args []reflect.Value, ea []error) {
+
+	// Arguments are checked and coerced the same way as for the other
+	// resolvers then placed in the order of the field definition. Omitted or
+	// null arguments become the zero value of the method parameter. A value
+	// that does not fit the parameter is an error and not a panic in Call.
+	var argMap map[string]interface{}
+	if argMap, ea = root.formArgs(vars, field, fd); 0 < len(ea) {
+		return nil, ea
+	}
+	mt := method.Type()
+	args = make([]reflect.Value, 0, mt.NumIn())
 	args = append(args, ov)
-	// Build the args by combining provided args and variable values as
-	// appropriate.
-	for _, av := range field.Args {
-		if vr, ok := av.Value.(Var); ok && vars != nil {
-			args = append(args, reflect.ValueOf(vars[string(vr)]))
-		} else {
-			args = append(args, reflect.ValueOf(av.Value))
+	for i, a := range fd.args.list {
+		if mt.NumIn() <= i+1 {
+			break
 		}
+		pt := mt.In(i + 1)
+		v := argMap[a.N]
+		rv := reflect.ValueOf(v)
+		switch {
+		case IsNil(v):
+			rv = reflect.Zero(pt)
+		case rv.Type().AssignableTo(pt):
+			// okay as is
+		case reflectConvertible(rv.Kind(), pt.Kind()):
+			rv = rv.Convert(pt)
+		default:
+			return nil, []error{resWarn(field.line, field.col, "argument %s of %s can not be a %T", a.N, field.Name, v)}
+		}
+		args = append(args, rv)
+	}
+	if len(args) != mt.NumIn() {
+		return nil, []error{resWarn(field.line, field.col, "%s expects %d arguments", field.Name, mt.NumIn()-1)}
 	}
 	return
+}
+
+func reflectConvertible(from, to reflect.Kind) bool {
+	isNum := func(k reflect.Kind) bool {
+		switch k {
+		case reflect.Int, reflect.Int8, reflect.Int16, reflect.Int32, reflect.Int64,
+			reflect.Uint, reflect.Uint8, reflect.Uint16, reflect.Uint32, reflect.Uint64,
+			reflect.Float32, reflect.Float64:
+			return true
+		}
+		return false
+	}
+	return (isNum(from) && isNum(to)) || (from == reflect.String && to == reflect.String)
 }
 
 func (root *Root) resolveInline(
